@@ -1,8 +1,11 @@
 """Per-property correspondence slices and oracles.  Each slice function takes a Ctx and returns the
-dict core.finish expects."""
-import os, sys, json, random, itertools, re, subprocess
+dict core.finish expects: evaluations, distinct_nontrivial, rule, samples, disagreements, violations."""
+import os, sys, json, random, itertools, re, subprocess, collections
 import tie, gen, core
 from core import Case, show
+
+ASTRAL = "\U0001F600"      # one supplementary-plane character
+COMB = "é"           # base + combining mark
 
 
 class Ctx:
@@ -11,18 +14,18 @@ class Ctx:
         self.rng = random.Random(seed * 1000003 + int(prop[1:]))
         self.quick = tier == "quick"
 
+    def n(self, quick, thorough):
+        return quick if self.quick else thorough
 
-# ---------------------------------------------------------------- helpers
+
+# ================================================================ helpers
 def parse_analyze(a):
     """'ok:N(61)M(S(61)G1(S(62)))' -> list of ('N', text) | ('M', tree); tree = list of ('S', text) |
-    ('G', nr, tree).  Returns None for errors / abnormal endings."""
-    if not a.startswith("ok:") or "!" in a:
+    ('G', nr, tree).  None for errors / abnormal endings."""
+    if not a or not a.startswith("ok:") or "!" in a:
         return None
     s = a[3:]
     pos = 0
-
-    def text(h):
-        return tie.dec(h)
 
     def entries():
         nonlocal pos
@@ -30,7 +33,7 @@ def parse_analyze(a):
         while pos < len(s) and s[pos] != ")":
             if s[pos] == "S":
                 j = s.index(")", pos)
-                out.append(("S", text(s[pos + 2:j])))
+                out.append(("S", tie.dec(s[pos + 2:j])))
                 pos = j + 1
             elif s[pos] == "G":
                 j = s.index("(", pos)
@@ -47,7 +50,7 @@ def parse_analyze(a):
     while pos < len(s):
         if s[pos] == "N":
             j = s.index(")", pos)
-            res.append(("N", text(s[pos + 2:j])))
+            res.append(("N", tie.dec(s[pos + 2:j])))
             pos = j + 1
         elif s[pos] == "M":
             pos += 2
@@ -72,8 +75,51 @@ def tree_groups(t, out=None):
     return out
 
 
+def code_spans(a):
+    """spans and per-match group dicts from a parsed analyze result"""
+    pos, spans, groups, trees = 0, [], [], []
+    for e in a:
+        if e[0] == "N":
+            pos += len(e[1])
+        else:
+            t = tree_text(e[1])
+            spans.append((pos, pos + len(t)))
+            groups.append(tree_groups(e[1]))
+            trees.append(e[1])
+            pos += len(t)
+    return spans, groups, trees
+
+
+def parse_tokens(t):
+    if not t or not t.startswith("ok:[") or not t.endswith("]"):
+        return None
+    body = t[4:-1]
+    return [] if body == "" else [tie.dec(x) for x in body.split("|")]
+
+
 def spec_call(lines):
-    return tie.run_tool([tie.DRIVER, "spec"], lines, "spec")
+    return tie.run_tool([tie.DRIVER, "spec"], lines, "spec") if lines else {}
+
+
+def spec_match(cases):
+    lines = ["\t".join([c.cid, "match", c.dialect, tie.enc(c.flags), tie.enc(c.pattern), tie.enc(c.input)])
+             for c in cases]
+    raw = spec_call(lines)
+    out = {}
+    for cid, rest in raw.items():
+        out[cid] = dict(kv.split("=", 1) for kv in rest.split("\t") if "=" in kv)
+    return out
+
+
+def spec_spans(sp):
+    spans, groups = [], []
+    if sp:
+        for part in sp.split(";"):
+            s, _, gs = part.partition(":")
+            x, y = s.split("-")
+            spans.append((int(x), int(y)))
+            groups.append(gs.split(",") if gs else [])
+    return spans, groups
 
 
 def diff_fields(c, m, fields=None):
@@ -83,7 +129,6 @@ def diff_fields(c, m, fields=None):
 
 
 def run_slice(cases, fields=None):
-    """run cases on both sides; returns (code, model, disagreements)"""
     code, model = tie.run_both([c.line() for c in cases], "p")
     dis = []
     for c in cases:
@@ -93,7 +138,1075 @@ def run_slice(cases, fields=None):
     return code, model, dis
 
 
-# ---------------------------------------------------------------- C15
+def viol(c, expected, got, why, spec=None, same=None):
+    v = {"case": c.to_json(), "expected": expected, "got": got, "why": why}
+    if spec is not None:
+        v["spec"] = {k: spec.get(k) for k in ("V", "bf", "bok", "strict", "k1", "k2", "k3") if k in spec}
+    if same is not None:
+        v["code_equals_model"] = same
+    return v
+
+
+def result(ctx, cases, dis, violations, nontrivial, rule, extra=None):
+    k = min(6, len(cases))
+    return {"evaluations": len(cases), "distinct_nontrivial": len(nontrivial), "rule": rule,
+            "samples": [c.to_json() for c in ctx.rng.sample(cases, k)] if k else [],
+            "disagreements": dis, "violations": violations, "extra": extra or {}}
+
+
+def mk_cases(tuples, apis, start=0):
+    """tuples: (dialect, flags, pattern, input, repl[, tag])"""
+    out = []
+    for i, t in enumerate(tuples):
+        out.append(Case(start + i, t[0], t[1], t[2], t[3], t[4], apis, tag=t[5] if len(t) > 5 else None))
+    return out
+
+
+def same_as_model(code, model, cid):
+    return code.get(cid) == model.get(cid)
+
+
+# ---------------------------------------------------------------- exhaustive small ASTs
+LEAVES = [("chr", "a"), ("chr", "b"), ("dot",), ("cls", False, [("c", "a"), ("c", "b")], None),
+          ("cls", True, [("c", "a")], None), ("bol",), ("eol",), ("chr", "\n")]
+QUANTS = [(0, 1), (0, None), (1, None), (2, 2), (1, 2), (2, None)]
+
+
+def enum_asts(size, memo={}):
+    if size in memo:
+        return memo[size]
+    if size == 1:
+        out = list(LEAVES)
+    else:
+        out = []
+        for body in enum_asts(size - 1):
+            out.append(("grp", body))
+            for mn, mx in QUANTS:
+                out.append(("q", body, mn, mx, True))
+                out.append(("q", body, mn, mx, False))
+        for k in range(1, size - 1):
+            for l in enum_asts(k):
+                for r in enum_asts(size - 1 - k):
+                    out.append(("seq", [l, r]))
+                    out.append(("alt", [l, r]))
+    memo[size] = out
+    return out
+
+
+def random_stream(ctx, count, feats=None, flagsets=None, alphabets=None, per_pattern=4, size=(1, 9),
+                  dialects=("xpath",), extra_inputs=()):
+    rng = ctx.rng
+    flagsets = flagsets or ["", "i", "m", "s", "im", "ms", "is", "ims"]
+    alphabets = alphabets or ["ab", "abc", "ab\n", "aAb", "ab" + ASTRAL]
+    out = []
+    while len(out) < count:
+        d = rng.choice(dialects)
+        al = rng.choice(alphabets)
+        g = gen.Gen(rng, alphabet=al, dialect=d, feats=set(feats) if feats else None)
+        ast, pat = g.pattern(rng.randint(*size))
+        fl = rng.choice(flagsets) if d == "xpath" else rng.choice(["", "i", "s", "is"])
+        for inp in gen.inputs_for(rng, al, per_pattern) + list(extra_inputs):
+            out.append((d, fl, pat, inp, ast))
+    return out
+
+
+# ================================================================ C01
+def slice_C01(ctx):
+    rng = ctx.rng
+    tuples = []
+    # (a) exhaustive small ASTs x exhaustive short inputs
+    maxsize = ctx.n(3, 4)
+    inputs = gen.all_strings("ab\n", 3)
+    flagsets = ["", "m"] if ctx.quick else ["", "m", "s", "i"]
+    n_exh = 0
+    for size in range(1, maxsize + 1):
+        for ast in enum_asts(size):
+            pat = gen.pp(ast)
+            for fl in flagsets:
+                for inp in inputs:
+                    tuples.append(("xpath", fl, pat, inp, "", "exhaustive"))
+                    n_exh += 1
+    # (b) seeded random structured patterns incl. back-references
+    for d, fl, pat, inp, ast in random_stream(ctx, ctx.n(20000, 200000)):
+        tuples.append((d, fl, pat, inp, "", "random"))
+    cases = mk_cases(tuples, "m")
+    code, model, dis = run_slice(cases)
+    spec = spec_match(cases)
+    violations, nontrivial = [], set()
+    hist = collections.Counter()
+    for c in cases:
+        s, r = spec.get(c.cid, {}), code.get(c.cid, {})
+        hist["V=" + s.get("V", "?")] += 1
+        if s.get("V") != "valid" or r.get("C") != "ok" or s.get("bok") != "1":
+            continue
+        exp = s.get("L") if "L" in s else s.get("RM")
+        hist["match" if exp == "1" else "nomatch"] += 1
+        nontrivial.add((c.flags, c.pattern, c.input))
+        if r.get("M") != exp:
+            violations.append(viol(c, "is_match=" + exp, "is_match=" + str(r.get("M")),
+                                   "is_match differs from membership of some substring in the pattern's language",
+                                   s, same_as_model(code, model, c.cid)))
+    return result(ctx, cases, dis, violations, nontrivial,
+                  f"(a) every pattern AST of size <= {maxsize} over 8 leaf kinds, 13 unary and 2 binary operators x every input of length <= 3 over {{a,b,LF}} x flags {flagsets} ({n_exh} cases); (b) seeded random structured patterns (size <= 9, classes, groups, alternation, greedy/reluctant quantifiers, anchors, back-references) x 4 inputs each x 8 flag subsets; non-trivial = distinct (flags,pattern,input) accepted by code and spec",
+                  {"distribution": dict(hist), "exhaustive": False})
+
+
+# ================================================================ C02
+def slice_C02(ctx):
+    tuples = []
+    feats = {"cls", "grp", "nc", "reluctant", "alt", "quant", "dot", "anchor"}
+    for d, fl, pat, inp, ast in random_stream(ctx, ctx.n(15000, 150000), feats=feats,
+                                              alphabets=["ab", "abc", "aab", "ab" + ASTRAL, "ab́"],
+                                              per_pattern=5):
+        tuples.append((d, fl, pat, inp, "", None))
+    # overlapping alternatives / greedy vs reluctant followed by optional terms
+    hand = ["a|ab", "ab|a", "(?:a|ab)(?:c|bcd)", "a*?b?", "a+?b*", "(?:ab|a)(?:b|bc)?", "a{1,2}?a", "(?:a|b)*?b",
+            "(?:aa|a)+", "(?:a|aa)+?b", ASTRAL + "|a", "[ab" + ASTRAL + "]+?" + ASTRAL, "a.b", "(?:.a|a.)"]
+    for p in hand:
+        for inp in gen.all_strings("ab", 4) + ["a" + ASTRAL + "b", ASTRAL + "ab" + ASTRAL, "abcbcd", "aab́"]:
+            tuples.append(("xpath", "", p, inp, "", "hand"))
+    cases = mk_cases(tuples, "art")
+    for c in cases:
+        c.repl = "\u0001$0\u0002"
+    code, model, dis = run_slice(cases)
+    spec = spec_match(cases)
+    violations, nontrivial = [], set()
+    weak_lines, weak_cases = [], {}
+    hist = collections.Counter()
+    for c in cases:
+        s, r = spec.get(c.cid, {}), code.get(c.cid, {})
+        if s.get("V") != "valid" or r.get("C") != "ok" or s.get("bok") != "1" or s.get("nullable") != "0":
+            continue
+        a = parse_analyze(r.get("A", ""))
+        if a is None:
+            violations.append(viol(c, "analyze completes", r.get("A"), "abnormal analyze outcome", s,
+                                   same_as_model(code, model, c.cid)))
+            continue
+        spans, _, _ = code_spans(a)
+        # the three APIs must be driven by the same spans (code points)
+        toks = parse_tokens(r.get("T", ""))
+        rep = r.get("R", "")
+        exp_toks, pos = [], 0
+        for (i, j) in spans:
+            exp_toks.append(c.input[pos:i])
+            pos = j
+        exp_toks.append(c.input[pos:])
+        if c.input == "":
+            exp_toks = []
+        exp_rep, pos = "", 0
+        for (i, j) in spans:
+            exp_rep += c.input[pos:i] + "\u0001" + c.input[i:j] + "\u0002"
+            pos = j
+        exp_rep += c.input[pos:]
+        if toks != exp_toks or rep != "ok:" + tie.enc(exp_rep):
+            violations.append(viol(c, {"tokens": exp_toks, "replace": exp_rep}, {"T": r.get("T"), "R": rep},
+                                   "tokenize / replace_all are not driven by the spans analyze reports", s,
+                                   same_as_model(code, model, c.cid)))
+            continue
+        nontrivial.add((c.flags, c.pattern, c.input))
+        if s.get("strict") == "1":
+            hist["strict"] += 1
+            sspans, _ = spec_spans(s.get("SP", ""))
+            if spans != sspans:
+                violations.append(viol(c, {"spans": sspans}, {"spans": spans},
+                                       "reported spans differ from leftmost / ordered-choice selection", s,
+                                       same_as_model(code, model, c.cid)))
+        else:
+            hist["weak"] += 1
+            weak_lines.append("\t".join([c.cid, "weak", c.dialect, tie.enc(c.flags), tie.enc(c.pattern),
+                                         tie.enc(c.input), ";".join(f"{i}-{j}" for i, j in spans) or "-"]))
+            weak_cases[c.cid] = (c, spans, s)
+    for cid, verdict in spec_call(weak_lines).items():
+        if verdict == "bad":
+            c, spans, s = weak_cases[cid]
+            violations.append(viol(c, "every span a member of the match relation, leftmost, in order", {"spans": spans},
+                                   "weak clause of C02 fails", s, same_as_model(code, model, cid)))
+    return result(ctx, cases, dis, violations, nontrivial,
+                  "seeded random structured patterns (alternations, greedy/reluctant quantifiers, classes, anchors) x 5 inputs incl. supplementary-plane and combining characters, plus hand-picked overlapping-alternative shapes x all inputs <= 4 over {a,b}; spans reconstructed from analyze, tokenize and replace_all; strict clause where no quantifier body is nullable, weak clause otherwise; non-trivial = distinct accepted non-nullable (flags,pattern,input)",
+                  {"distribution": dict(hist)})
+
+
+# ================================================================ C03
+def parent_map(pattern):
+    """group -> parent group (0 = none) from the pattern text, independently of the code"""
+    parents, stack, group, i, depth_cls = {}, [0], 0, 0, 0
+    kinds = []
+    while i < len(pattern):
+        ch = pattern[i]
+        if ch == "\\":
+            i += 2
+            continue
+        if ch == "[":
+            depth_cls += 1
+        elif ch == "]":
+            depth_cls -= 1
+        elif ch == "(" and depth_cls == 0:
+            if pattern[i + 1:i + 3] == "?:":
+                kinds.append(False)
+            else:
+                group += 1
+                parents[group] = stack[-1]
+                stack.append(group)
+                kinds.append(True)
+        elif ch == ")" and depth_cls == 0:
+            if kinds.pop():
+                stack.pop()
+        i += 1
+    return parents
+
+
+def check_tree(tree, parents, parent=0, seen=None):
+    """group entries properly nested according to the pattern's parenthesis nesting"""
+    seen = set() if seen is None else seen
+    for x in tree:
+        if x[0] == "G":
+            nr = x[1]
+            if nr in seen:
+                return f"group {nr} reported twice"
+            seen.add(nr)
+            # the nearest reported ancestor must be an ancestor in the pattern
+            p, ok = parents.get(nr), False
+            while p is not None:
+                if p == parent:
+                    ok = True
+                    break
+                p = parents.get(p) if p != 0 else None
+            if not ok:
+                return f"group {nr} is reported inside group {parent}, which does not enclose it in the pattern"
+            e = check_tree(x[2], parents, nr, seen)
+            if e:
+                return e
+    return None
+
+
+def slice_C03(ctx):
+    rng = ctx.rng
+    tuples = []
+    feats = {"grp", "alt", "quant", "reluctant", "cls", "nc"}
+    for d, fl, pat, inp, ast in random_stream(ctx, ctx.n(12000, 120000), feats=feats, flagsets=["", "i", "s"],
+                                              alphabets=["ab", "abc", "aab"], per_pattern=5, size=(2, 9)):
+        if gen.count_groups(ast) == 0:
+            continue
+        tuples.append((d, fl, pat, inp, "", "random"))
+    hand = ["(a)|b", "(a)?b", "(a*)b", "a(b?)c", "(a)(b)?(c)", "((a)(b))", "((a)|(b))c", "(a|(b))(c)", "()a", "(a|)b",
+            "(a)(b)(c)(d)(e)(f)(g)(h)(i)(j)(k)", "((((a))))", "(a(b(c)))", "(a)b|a(c)", "(?:(a)|b)c", "(a)+", "(a|b)+c",
+            "(a+)(b+)", "(a*?)(b)", "x(a)?y"]
+    for p in hand:
+        for inp in gen.all_strings("abc", 3) + ["abcdefghijk", "xay", "xy", "aabb"]:
+            tuples.append(("xpath", "", p, inp, "", "hand"))
+    cases = mk_cases(tuples, "ra")
+    code0 = None
+    # the replacement asks for every group
+    for c in cases:
+        ng = len(parent_map(c.pattern))
+        c.repl = "".join(f"<{k}:${k}>" for k in range(1, ng + 1)) + "!"
+    code, model, dis = run_slice(cases)
+    spec = spec_match(cases)
+    violations, nontrivial = [], set()
+    hist = collections.Counter()
+    for c in cases:
+        s, r = spec.get(c.cid, {}), code.get(c.cid, {})
+        if s.get("V") != "valid" or r.get("C") != "ok" or s.get("bok") != "1" or s.get("nullable") != "0":
+            continue
+        same = same_as_model(code, model, c.cid)
+        a = parse_analyze(r.get("A", ""))
+        if a is None:
+            violations.append(viol(c, "analyze completes", r.get("A"), "abnormal analyze outcome", s, same))
+            continue
+        spans, groups, trees = code_spans(a)
+        if "".join(e[1] if e[0] == "N" else tree_text(e[1]) for e in a) != c.input:
+            violations.append(viol(c, "concatenated analyze texts = input", r.get("A"), "leaves do not add up", s, same))
+            continue
+        parents = parent_map(c.pattern)
+        ng = len(parents)
+        bad = None
+        for t in trees:
+            bad = bad or check_tree(t, parents)
+        if bad:
+            violations.append(viol(c, "group entries nested as the parentheses of the pattern", r.get("A"), bad, s, same))
+            continue
+        if not spans:
+            continue
+        nontrivial.add((c.flags, c.pattern, c.input))
+        if s.get("strict") != "1":
+            hist["non-strict (tree checks only)"] += 1
+            continue
+        sspans, sgroups = spec_spans(s.get("SP", ""))
+        if sspans != spans:
+            hist["spans differ (C02's business)"] += 1
+            continue
+        hist["groups compared"] += 1
+        # expected replace output and analyze group presence from the selected path
+        exp_rep, pos, badg = "", 0, None
+        for k, (i, j) in enumerate(spans):
+            exp_rep += c.input[pos:i]
+            for gi in range(1, ng + 1):
+                g = sgroups[k][gi - 1] if gi - 1 < len(sgroups[k]) else "~"
+                if g == "~":
+                    txt, present = "", False
+                else:
+                    x, y = g.split("-")
+                    txt, present = c.input[int(x):int(y)], True
+                exp_rep += f"<{gi}:{txt}>"
+                got_present = gi in groups[k]
+                if present != got_present or (present and groups[k][gi] != txt):
+                    badg = f"match {k}: group {gi} expected {'absent' if not present else repr(txt)}, analyze has {groups[k].get(gi, 'absent')!r}"
+            exp_rep += "!"
+            pos = j
+        exp_rep += c.input[pos:]
+        if badg:
+            violations.append(viol(c, {"groups": sgroups}, r.get("A"), badg, s, same))
+        elif r.get("R") != "ok:" + tie.enc(exp_rep):
+            violations.append(viol(c, "ok:" + tie.enc(exp_rep), r.get("R"),
+                                   "$N in replace_all differs from the text captured on the selected path", s, same))
+    return result(ctx, cases, dis, violations, nontrivial,
+                  "seeded random patterns with >= 1 capturing group (groups in alternations, under quantifiers, nested, empty) x 5 inputs, plus 20 hand-picked group shapes (incl. 11 groups) x all inputs <= 3 over {a,b,c}; $1..$N through replace_all and Group entries of analyze against the head of the ordered-choice semantics; tree checks (nesting, inside match, leaves add up) on every case",
+                  {"distribution": dict(hist)})
+
+
+# ================================================================ C04
+def slice_C04(ctx):
+    tuples = []
+    for d, fl, pat, inp, ast in random_stream(ctx, ctx.n(12000, 120000), dialects=("xpath", "xpath", "xsd"),
+                                              alphabets=["ab", "abc", "ab" + ASTRAL, "ab́", "ab\n"],
+                                              per_pattern=5, extra_inputs=("",)):
+        tuples.append((d, fl, pat, inp, "", None))
+    cases = []
+    cid = 0
+    for t in tuples:
+        for repl in ("$0", "-", "xy"):
+            cases.append(Case(cid, t[0], t[1], t[2], t[3], repl, "rta"))
+            cid += 1
+    code, model, dis = run_slice(cases)
+    violations, nontrivial = [], set()
+    hist = collections.Counter()
+    for c in cases:
+        r = code.get(c.cid, {})
+        if r.get("C") != "ok":
+            continue
+        same = same_as_model(code, model, c.cid)
+        if r.get("R") == "E:MatchesEmptyString":
+            hist["nullable"] += 1
+            continue
+        a = parse_analyze(r.get("A", ""))
+        toks = parse_tokens(r.get("T", ""))
+        if a is None or toks is None or not r.get("R", "").startswith("ok:"):
+            violations.append(viol(c, "all three APIs complete", r, "abnormal outcome on a non-nullable regex", None, same))
+            continue
+        texts = [e[1] if e[0] == "N" else tree_text(e[1]) for e in a]
+        spans, _, _ = code_spans(a)
+        pieces, pos = [], 0
+        for (i, j) in spans:
+            pieces.append(c.input[pos:i])
+            pos = j
+        pieces.append(c.input[pos:])
+        exp_toks = [] if c.input == "" else pieces
+        rep = tie.dec(r["R"][3:])
+        exp_rep = c.input if c.repl == "$0" else c.repl.join(pieces)
+        problems = []
+        if "".join(texts) != c.input:
+            problems.append("concatenated analyze texts differ from the input")
+        if any(e[0] == "N" and e[1] == "" for e in a):
+            problems.append("analyze reports an empty non-match")
+        if toks != exp_toks:
+            problems.append("tokenize differs from the pieces between analyze's matches")
+        if rep != exp_rep:
+            problems.append("replace_all differs from the pieces joined by the replacement")
+        hist["matches>0" if spans else "no match"] += 1
+        if spans:
+            nontrivial.add((c.dialect, c.flags, c.pattern, c.input))
+        if problems:
+            violations.append(viol(c, {"tokens": exp_toks, "replace": exp_rep}, r, "; ".join(problems), None, same))
+    return result(ctx, cases, dis, violations, nontrivial,
+                  "seeded random patterns in both dialects x 6 inputs (incl. empty, supplementary-plane, combining) x replacements {$0, '-', 'xy'}; analyze / tokenize / replace_all cross-checked on the code's own results; non-trivial = distinct (dialect,flags,pattern,input) with >= 1 match",
+                  {"distribution": dict(hist)})
+
+
+# ================================================================ C05 / C06
+META18 = "()[]{}|*+?\\^$-.,a1"
+EXTREME = ["a{2,9223372036854775808}", "b(?:ab){2,9223372036854775808}a", "(?:a|bc){18446744073709551615}a",
+           "a{18446744073709551615}", "a{18446744073709551616}", "a{0,18446744073709551615}b",
+           "^a{18446744073709551615}b", "(a{4611686018427387904}){4}", "a{99999999999999999999}",
+           "(?:ab){9223372036854775807,}", "[ab]{3,9223372036854775807}c", "(?:a?){18446744073709551615}",
+           "(?:a|^){4294967296}b", "a{1,2}{3}", "(a){0}\\1", "(?:){5}a", "(" * 300 + "a" + ")" * 300,
+           "(?:" * 300 + "a" + ")" * 300, "[" + "a-[" * 100 + "b" + "]" * 101, "a" * 3000, "(a|b)" * 200,
+           "\\p{IsBasicLatin}{2,}", "\\P{Cn}*", "[\\x]", "\\", "(?:", "(?", "[", "[^", "[a-", "a{", "a{1", "a{1,",
+           "$1", "\\1", "(a)\\2", "(a)\\10", "(\\1)", "[\\1]", "a**", "a??+", "^*$+", "(^)*", "($|^)+a"]
+
+
+def arbitrary_stream(ctx):
+    rng = ctx.rng
+    pats = gen.all_strings(META18, ctx.n(3, 4))
+    if ctx.quick:
+        pats = pats + ["".join(rng.choice(META18) for _ in range(4)) for _ in range(4000)]
+    for _ in range(ctx.n(3000, 30000)):
+        g = gen.Gen(rng, alphabet=rng.choice(["ab", "ab\n", "aA" + ASTRAL]))
+        _, p = g.pattern(rng.randint(1, 10))
+        for _ in range(rng.randint(1, 3)):
+            p = gen.mutate(rng, p)
+        pats.append(p)
+    for _ in range(ctx.n(1000, 10000)):
+        pats.append("".join(chr(rng.choice([rng.randrange(0x20, 0x7f), rng.randrange(0xa0, 0x2000),
+                                            rng.randrange(0x10000, 0x10ffff), 0xd7ff, 0xe000, 0, 10, 13]))
+                            for _ in range(rng.randint(1, 6))))
+    pats += EXTREME
+    tuples = []
+    flagpool = ["", "", "", "i", "m", "s", "x", "q", "imsx", "qi", ";", "z", "i;k", "xq", ASTRAL]
+    inputs = ["", "a", "ab\n", "aab1(", ASTRAL + "a"]
+    repls = ["", "$0", "$1", "\\", "$", "x$9y", "\\$"]
+    for p in pats:
+        tuples.append((rng.choice(["xpath", "xpath", "xsd"]), rng.choice(flagpool), p, rng.choice(inputs),
+                       rng.choice(repls)))
+    return tuples
+
+
+def slice_C05(ctx):
+    cases = mk_cases(arbitrary_stream(ctx), "mrta")
+    code, model, dis = run_slice(cases)
+    violations, nontrivial = [], set()
+    hist = collections.Counter()
+    for c in cases:
+        r = code.get(c.cid, {})
+        hist[r.get("C", "?")] += 1
+        bad = [k for k, v in r.items() if "PANIC" in v or "ABORT" in v or "E:Internal" in v]
+        if r.get("C") == "ok":
+            nontrivial.add(c.key())
+        if bad:
+            violations.append(viol(c, "Ok or a classified Err from every call", r,
+                                   "panic / abort / Error::Internal in " + ",".join(bad), None,
+                                   same_as_model(code, model, c.cid)))
+    return result(ctx, cases, dis, violations, nontrivial,
+                  f"every string of length <= {ctx.n(3, 4)} over the 18-symbol metacharacter alphabet, token-level mutations of generated patterns, random Unicode strings (incl. U+0000, U+D7FF/E000 neighbours, supplementary planes), extreme quantifier bounds and deep nesting (300 levels); random dialect, flags (valid and invalid), input and replacement; every API and iterator step under catch_unwind, overflow checks on; non-trivial = distinct cases whose pattern compiled",
+                  {"distribution": dict(hist)})
+
+
+def slice_C06(ctx):
+    rng = ctx.rng
+    tuples = arbitrary_stream(ctx)
+    # quantifiers over nullable / zero-width / first-attempt-failing bodies; empty back-references
+    bodies = ["a?", "a*", "(?:a|)", "(?:|a)", "^", "$", "(?:^|a)", "(?:a|$)", "()", "(a*)", "(?:a*)*", "(?:a?b?)",
+              "(?:b|a*)", "(a|b*)", "\\1", "(?:^^)", "(?:a|bb)", "(?:a|ab)", "(?:ab|c)", "[ab]?", "(?:a*?)"]
+    quants = ["*", "+", "?", "{2}", "{0,3}", "{2,}", "*?", "+?", "??", "{2,3}?", "{1,}?"]
+    for b in bodies:
+        for q in quants:
+            for pre, post in (("", ""), ("", "c"), ("(x?)", "c"), ("^", "$")):
+                p = pre + (b if not b.startswith("\\1") or pre == "(x?)" else "(?:a)") + q + post
+                for inp in ("", "a", "aab", "cc", "abc", "bbbbbbbb"):
+                    tuples.append(("xpath", rng.choice(["", "m"]), p, inp, "-"))
+    cases = mk_cases(tuples, "mrta")
+    code, model, dis = run_slice(cases)
+    violations, nontrivial = [], set()
+    hist = collections.Counter()
+    for c in cases:
+        r = code.get(c.cid, {})
+        n = len(c.input)
+        bad = [k for k, v in r.items() if "HANG" in v or "!INF" in v or "UNFUSED" in v]
+        toks = parse_tokens(r.get("T", ""))
+        a = parse_analyze(r.get("A", ""))
+        if toks is not None and len(toks) > n + 1:
+            bad.append(f"{len(toks)} tokens for {n} characters")
+        if a is not None and len(a) > 2 * n + 1:
+            bad.append(f"{len(a)} analyze entries for {n} characters")
+        if r.get("C") == "ok":
+            nontrivial.add(c.key())
+            hist["tokens=%s" % (len(toks) if toks is not None else "-")] += 1
+        if bad:
+            violations.append(viol(c, "every call returns; tokens <= len+1; entries <= 2len+1; fused iterators", r,
+                                   "; ".join(bad), None, same_as_model(code, model, c.cid)))
+    return result(ctx, cases, dis, violations, nontrivial,
+                  "the C05 stream plus 21 nullable / zero-width / first-attempt-failing bodies x 11 quantifier forms x 4 contexts x 6 inputs; per-case watchdog (10 s without progress = HANG) against a model whose loops run on explicit fuel; iterator item counts and three extra next() calls after None",
+                  {"distribution": dict(hist)})
+
+
+# ================================================================ C07 / C17 (grammar)
+def grammar_stream(ctx, dialects):
+    rng = ctx.rng
+    tuples = []
+    alphabet = "()[]{}|*+?\\^$-.,a1"
+    for p in gen.all_strings(alphabet, ctx.n(3, 4)):
+        tuples.append((rng.choice(dialects), "", p, "", "", "short"))
+    if ctx.quick:
+        for _ in range(6000):
+            tuples.append((rng.choice(dialects), "", "".join(rng.choice(alphabet) for _ in range(rng.randint(4, 6))), "", "", "short"))
+    for _ in range(ctx.n(6000, 60000)):
+        d = rng.choice(dialects)
+        g = gen.Gen(rng, alphabet=rng.choice(["ab", "a-b", "ab^"]), dialect=d)
+        _, p = g.pattern(rng.randint(1, 10))
+        tuples.append((d, rng.choice(["", "x", "i"]), p, "", "", "rendered"))
+        tuples.append((d, "", gen.mutate(rng, p), "", "", "mutated"))
+    special = ["\\p{L}", "\\p{Lx}", "\\p{}", "\\p{IsGreek}", "\\p{IsNoSuchBlock}", "\\p{Is}", "\\p{Cs}", "\\P{Zs}", "\\pL",
+               "\\e", "\\0", "\\", "a\\", "[b-a]", "[a-a]", "[]", "[^]", "[a", "a]", "(a", "a)", "a{2,1}", "a{1,2}", "a{,2}",
+               "a{1,", "a{a}", "a{1}{2}", "a**", "a+*", "*a", "+", "?", "|", "a|", "|a", "()", "(?:)", "(?:a", "(?a)",
+               "(a)\\1", "(a)\\2", "\\1(a)", "(a\\1)", "(a)[\\1]", "(a)(b)(c)(d)(e)(f)(g)(h)(i)(j)\\10", "(a)\\10",
+               "^*", "$+", "^{2}", "^*?a", "a*?", "a??", "a{2}?", "\\$", "\\^", "[\\$]", "[a-[b]]", "[a-[^b]]", "[-a]", "[a-]",
+               "[a-z-[aeiou]]", "[\\d-[5]]", "[\\p{L}-[a-z]]", "[^a-[b]]", "\\n\\r\\t\\\\\\|\\.\\-\\^\\?\\*\\+\\{\\}\\(\\)\\[\\]"]
+    for p in special:
+        for d in dialects:
+            tuples.append((d, "", p, "", "", "special"))
+    return tuples
+
+
+def flag_stream(ctx, dialects):
+    tuples = []
+    for f in gen.all_strings("smixq;gkKzS", 3):
+        for d in dialects:
+            tuples.append((d, f, "a", "", "", "flags"))
+    return tuples
+
+
+def grammar_check(ctx, dialects, prop):
+    tuples = grammar_stream(ctx, dialects) + flag_stream(ctx, dialects)
+    cases = mk_cases(tuples, "m")
+    code, model, dis = run_slice(cases)
+    spec = spec_match(cases)
+    violations, nontrivial = [], set()
+    hist = collections.Counter()
+    for c in cases:
+        s, r = spec.get(c.cid, {}), code.get(c.cid, {})
+        v = s.get("V")
+        hist[f"{c.tag}:{v}"] += 1
+        if v == "unspec":
+            continue
+        nontrivial.add((c.dialect, c.flags, c.pattern))
+        same = same_as_model(code, model, c.cid)
+        if v == "valid" and r.get("C") != "ok":
+            violations.append(viol(c, "accepted (grammar-valid)", r.get("C"), "a grammar-valid pattern / flag string is rejected", s, same))
+        elif v == "invalid":
+            # which error is expected: flags are checked first
+            fl_ok = all(ch in "smixq" for ch in c.flags.split(";")[0]) and not ("q" in c.flags and c.dialect == "xsd")
+            exp = "E:Syntax" if fl_ok else "E:InvalidFlags"
+            if r.get("C") != exp:
+                violations.append(viol(c, exp, r.get("C"), "a malformed pattern / flag string is not rejected with the classified error", s, same))
+    return result(ctx, cases, dis, violations, nontrivial,
+                  f"every string of length <= {ctx.n(3, 4)} over the metacharacter alphabet ()[]{{}}|*+?\\^$-.,a1, patterns rendered from generated ASTs (must be accepted), token-level mutations, 70 hand-written boundary cases, and every flag string of length <= 3 over {{s,m,i,x,q,;,g,k,K,z,S}}; dialects {list(dialects)}; acceptance compared with the three-valued grammar (no claim on its Unspecified band); non-trivial = distinct (dialect,flags,pattern) with a Valid/Invalid verdict",
+                  {"distribution": dict(hist)})
+
+
+def slice_C07(ctx):
+    return grammar_check(ctx, ("xpath",), "C07")
+
+
+# ================================================================ C08
+def slice_C08(ctx):
+    rng = ctx.rng
+    tuples = []
+    for d, fl, pat, inp, ast in random_stream(ctx, ctx.n(10000, 100000), per_pattern=4,
+                                              alphabets=["ab", "abc", "ab\n", "aAb", "ab1"]):
+        tuples.append((d, fl, pat, inp, "[$1]"))
+    # shapes that trigger each shortcut
+    heads = ["ab", "a", "[ab]", "\\d", "^", "^a", ".", "(a)", "(?:ab|a)"]
+    reps = ["a*", "a+", "[ab]*", "\\s*", "\\d+", "a{2}", "a{2,3}", "[a-c]{1,2}", "a*?", "a+?", "(?:ab)*", ".*", "\\n*", "A*"]
+    tails = ["a", "b", "$", "^", "\n", "\\n", "[bc]", "\\d", "1", "A", "", "(?:a|b)", "b?", "$\nb", "^a", "\\s"]
+    for h in heads:
+        for r_ in reps:
+            for t in tails:
+                p = h + r_ + t
+                for fl in ("", "i", "m", "im", "s"):
+                    inp = "".join(rng.choice("ab\nA1 ") for _ in range(rng.randint(0, 7)))
+                    tuples.append(("xpath", fl, p, inp, "<$0>"))
+    longs = ["abcabcabc", "a{5}b{5}", "(?:abc){3}", "[ab]{6}c"]
+    for p in longs:
+        for inp in ("", "abcabcab", "abcabcabc", "aaaaabbbbb", "ababab" + "c"):
+            tuples.append(("xpath", "", p, inp, "-"))
+    cases = mk_cases(tuples, "mrtau")
+    code, model, dis = run_slice(cases)
+    violations, nontrivial = [], set()
+    hist = collections.Counter()
+    for c in cases:
+        r = code.get(c.cid, {})
+        if r.get("C") != "ok":
+            if r.get("C") != r.get("uC"):
+                violations.append(viol(c, {"C": r.get("uC")}, {"C": r.get("C")}, "acceptance differs with optimisations off",
+                                       None, same_as_model(code, model, c.cid)))
+            continue
+        nontrivial.add(c.key())
+        diffs = {k: (r.get(k), r.get("u" + k)) for k in ("C", "M", "R", "T", "A") if r.get(k) != r.get("u" + k)}
+        hist["match" if r.get("M") == "1" else "nomatch"] += 1
+        if diffs:
+            violations.append(viol(c, {k: v[1] for k, v in diffs.items()}, {k: v[0] for k, v in diffs.items()},
+                                   "results differ from the same engine with all compile-time shortcuts switched off",
+                                   None, same_as_model(code, model, c.cid)))
+    return result(ctx, cases, dis, violations, nontrivial,
+                  "four-way: code optimised / code unoptimised (hook constructor) / model optimised / model unoptimised; seeded random patterns x 4 inputs x 8 flag subsets, plus 9 heads x 14 repeats x 16 followers x 5 flag sets (leading literal / class / ^, X*Y with related and unrelated first sets incl. anchors, newlines and case variants) and long-minimum-length shapes; all five APIs compared",
+                  {"distribution": dict(hist)})
+
+
+# ================================================================ C09 / C10 (character sets)
+def boundary_points():
+    """range boundaries +-1 of every dumped General_Category set, plus fixed interesting points"""
+    pts = set([0, 9, 10, 13, 32, 0x2d, 0x2e, 0x30, 0x39, 0x3a, 0x41, 0x5a, 0x5f, 0x61, 0x7a, 0xb7, 0xd7ff, 0xe000, 0xfffd,
+               0xffff, 0x10000, 0xeffff, 0xf0000, 0x10fffd, 0x10ffff, 0x17f, 0x212a, 0x3c2, 0x3c3, 0x130, 0x131])
+    dump = os.path.join(tie.WORK, "dump", "gc.txt")
+    for line in open(dump):
+        for r in line.split()[1:]:
+            a, b = (int(x, 16) for x in r.split("-"))
+            for p in (a - 1, a, b, b + 1):
+                pts.add(p)
+    for rng_ in ((0x41, 0x5b), (0x61, 0x7b), (0x370, 0x400), (0x400, 0x460), (0x10400, 0x10450), (0xc0, 0x100)):
+        pts.update(range(*rng_))
+    return sorted(p for p in pts if 0 <= p <= 0x10ffff and not (0xd800 <= p <= 0xdfff))
+
+
+def sweep_compare(ctx, pats, points, prop, why):
+    """pats: list of (dialect, flags, pattern, tag).  Code membership (is_match on one-character
+    inputs) against the specification's membership, on the given points ('all' or list)."""
+    pts = "all" if points == "all" else ".".join("%x" % p for p in points)
+    code_lines, spec_lines, model_lines = [], [], []
+    for i, (d, fl, p, tag) in enumerate(pats):
+        code_lines.append("\t".join([str(i), d, tie.enc(fl), tie.enc(p), pts]))
+        spec_lines.append("\t".join([str(i), "clsmem", d, tie.enc(fl), tie.enc(p), pts]))
+    code = tie.run_tool([tie.HARNESS, "sweep"], code_lines, "sweep")
+    spec = spec_call(spec_lines)
+    model = tie.run_tool([tie.DRIVER, "mem"], code_lines, "mem") if points != "all" else {}
+    violations, dis, nontrivial = [], [], set()
+    npts = 1112064 if points == "all" else len(points)
+    for i, (d, fl, p, tag) in enumerate(pats):
+        cid = str(i)
+        c = Case(cid, d, fl, p, "", "", "sweep", tag)
+        cr, sr = code.get(cid), spec.get(cid)
+        if model and model.get(cid) != cr:
+            dis.append({"case": c.to_json(), "tag": tag, "differs": {"members": {"code": (cr or "")[:300], "model": (model.get(cid) or "")[:300]}}})
+        if sr in ("unspec", "not-a-class", None):
+            continue
+        nontrivial.add((d, fl, p))
+        if sr == "invalid":
+            if cr and cr.startswith("ok"):
+                violations.append(viol(c, "rejected", cr[:200], "an invalid class expression / escape is accepted"))
+            continue
+        if cr != sr:
+            violations.append(viol(c, sr[:400], (cr or "")[:400], why))
+    return pats, dis, violations, nontrivial, npts
+
+
+def slice_C09(ctx):
+    rng = ctx.rng
+    pats = []
+    g = gen.Gen(rng, alphabet="abcxyzABC019-^ \n", dialect="xpath")
+    for _ in range(ctx.n(300, 120)):
+        ce = g.cls()
+        fl = rng.choice(["", "", "i"])
+        pats.append(("xpath", fl, gen.pp_cls(ce), "class"))
+        # the same class under a quantifier and inside a group must match the same set
+        if rng.random() < 0.3:
+            pats.append(("xpath", fl, "(?:" + gen.pp_cls(ce) + ")", "class-in-group"))
+    hand = ["[a]", "a", "[a-c]", "[^a-c]", "[a-cx-z]", "[a-z-[aeiou]]", "[a-z-[a-c-[b]]]", "[^a-z-[^x]]", "[\\d-[5]]",
+            "[\\D]", "[\\w-[\\d]]", "[\\W\\d]", "[\\s\\S]", "[^\\s\\S]", "[\\i-[:]]", "[\\c-[\\i]]", "[\\I]", "[\\C]",
+            "[\\p{L}-[\\p{Lu}]]", "[\\P{L}]", "[^\\P{L}]", "[\\p{IsGreek}-[\\p{L}]]", "[\\-a]", "[a\\-]", "[-a]", "[a-]",
+            "[\\^a]", "[\\[\\]]", "[.]", "[$]", "[\\n-\\r]", "[ -~]", "[x]", "x", "[\\\\]", "[aA]", "[k]", "[K]",
+            "[K]", "[s]", "[ſ]", "[σ]", "[ς]", "[i]", "[İ]", "[ı]"]
+    for h in hand:
+        for fl in ("", "i"):
+            pats.append(("xpath", fl, h, "hand"))
+    points = boundary_points() if ctx.quick else "all"
+    pats, dis, violations, nontrivial, npts = sweep_compare(
+        ctx, pats, points, "C09", "the set of characters matched differs from the set algebra on the expression's parts")
+    cases = [Case(i, p[0], p[1], p[2], "", "", "sweep", p[3]) for i, p in enumerate(pats)]
+    r = result(ctx, cases, dis, violations, nontrivial,
+               f"generated class expressions (nesting <= 3: single characters, ranges, multi-character and category escapes, negation, subtraction; with and without flag i) and 45 hand-written ones; membership of {'every one of the 1,112,064 scalar values' if points == 'all' else str(npts) + ' points (all General_Category range boundaries +-1, name-character boundaries, ASCII/Latin-1/Greek/Cyrillic/Deseret letters, special-casing characters)'} through the public API against the specification's class_mem",
+               {"points_per_pattern": npts, "membership_evaluations": npts * len(pats), "exhaustive": points == "all"})
+    return r
+
+
+def slice_C10(ctx):
+    rng = ctx.rng
+    pats = []
+    for c in gen.CATS:
+        pats.append(("xpath", "", "\\p{%s}" % c, "cat"))
+        pats.append(("xpath", "", "\\P{%s}" % c, "cat"))
+    for e in gen.MULTI:
+        pats.append(("xpath", "", e, "multi"))
+        pats.append(("xsd", "", e, "multi"))
+    for bad in ["\\p{Cs}", "\\p{X}", "\\p{Lx}", "\\p{l}", "\\p{LU}", "\\p{IsNoSuch}", "\\p{IsBasic Latin}", "\\p{Isbasiclatin}",
+                "\\p{Is}", "\\p{Greek}", "\\p{IsPrivate Use}", "\\p{L }"]:
+        pats.append(("xpath", "", bad, "unknown"))
+    # every block of the shipped list, by its space-stripped name
+    blocks = []
+    for fn in ("Blocks.txt", "CompatBlocks.txt"):
+        for line in open(f"/repo/regexml-ucd-blocks/src/{fn}"):
+            t = line.strip()
+            if t and not t.startswith("#"):
+                rng_, name = t.split(";")
+                blocks.append((name.strip().replace(" ", ""), rng_.strip()))
+    blocks.append(("PrivateUse", ""))
+    bl = blocks if not ctx.quick else blocks
+    for name, _ in bl:
+        pats.append(("xpath", "", "\\p{Is%s}" % name, "block"))
+    for name, _ in rng.sample(blocks, 30):
+        pats.append(("xpath", "", "\\P{Is%s}" % name, "block"))
+    pts = set(boundary_points())
+    for _, r_ in blocks:
+        if r_:
+            a, b = (int(x, 16) for x in r_.split(".."))
+            pts.update(p for p in (a - 1, a, b, b + 1) if 0 <= p <= 0x10ffff and not (0xd800 <= p <= 0xdfff))
+    points = sorted(pts)
+    if not ctx.quick:
+        # thorough: categories and multi-character escapes over every scalar value; blocks on boundaries
+        small = [p for p in pats if p[3] in ("cat", "multi", "unknown")]
+        big = [p for p in pats if p[3] == "block"]
+        _, dis1, v1, n1, np1 = sweep_compare(ctx, small, "all", "C10", "the escape matches a different set than the Unicode / XML data")
+        _, dis2, v2, n2, np2 = sweep_compare(ctx, big, points, "C10", "the block escape matches a different range than the shipped block list")
+        dis, violations, nontrivial = dis1 + dis2, v1 + v2, n1 | n2
+        evals = np1 * len(small) + np2 * len(big)
+    else:
+        _, dis, violations, nontrivial, npts = sweep_compare(ctx, pats, points, "C10", "the escape matches a different set than the Unicode / XML data")
+        evals = npts * len(pats)
+    cases = [Case(i, p[0], p[1], p[2], "", "", "sweep", p[3]) for i, p in enumerate(pats)]
+    return result(ctx, cases, dis, violations, nontrivial,
+                  f"the 36 category names (\\p and \\P), \\d \\w \\s \\i \\c and complements in both dialects, every block of Blocks.txt + CompatBlocks.txt + PrivateUse, and unknown names (must be rejected); membership on {'all scalar values for categories and multi-character escapes, boundary points for blocks' if not ctx.quick else str(len(points)) + ' boundary points'} against the specification (General_Category tables, XML name-character ranges, block list parsed independently)",
+                  {"membership_evaluations": evals, "exhaustive": not ctx.quick})
+
+
+SLICES = {}
+
+
+# ================================================================ C11
+CLEAN = {
+    "ascii": ("abxyz", "ABXYZ"), "latin1": ("àéöþ", "ÀÉÖÞ"), "greek": ("αβγω", "ΑΒΓΩ"),
+    "cyrillic": ("абжя", "АБЖЯ"), "deseret": ("\U00010428\U00010429", "\U00010400\U00010401"),
+}
+CASELESS = "019 \n-_!"
+
+
+def swapcase_map(lower, upper):
+    m = {}
+    for a, b in zip(lower, upper):
+        m[a], m[b] = b, a
+    return m
+
+
+def swap_ast(node, m, rng, p=0.6):
+    t = node[0]
+    if t == "chr":
+        return ("chr", m.get(node[1], node[1])) if rng.random() < p else node
+    if t == "cls":
+        items = []
+        for it in node[2]:
+            if it[0] == "c":
+                items.append(("c", m.get(it[1], it[1])) if rng.random() < p else it)
+            else:
+                items.append(it)
+        return ("cls", node[1], items, swap_ast(node[3], m, rng, p) if node[3] else None)
+    if t in ("grp", "nc"):
+        return (t, swap_ast(node[1], m, rng, p))
+    if t in ("seq", "alt"):
+        return (t, [swap_ast(x, m, rng, p) for x in node[1]])
+    if t == "q":
+        return ("q", swap_ast(node[1], m, rng, p), node[2], node[3], node[4])
+    return node
+
+
+def slice_C11(ctx):
+    rng = ctx.rng
+    cases, groups_ = [], []
+    cid = 0
+    for _ in range(ctx.n(2500, 25000)):
+        name = rng.choice(list(CLEAN))
+        lower, upper = CLEAN[name]
+        m = swapcase_map(lower, upper)
+        al = lower + upper[:2] + rng.choice(CASELESS) + rng.choice(CASELESS)
+        g = gen.Gen(rng, alphabet=al, feats={"cls", "grp", "nc", "reluctant", "alt", "quant", "bref", "dot"})
+        # ranges only inside one case of one script, so that the range is within the clean alphabet
+        ast, pat = g.pattern(rng.randint(1, 8))
+        ast2 = swap_ast(ast, m, rng)
+        pat2 = gen.pp(ast2)
+        for inp in gen.inputs_for(rng, al, 3)[1:] + ["".join(rng.choice(lower + upper) for _ in range(4))]:
+            inp2 = "".join(m.get(ch, ch) if rng.random() < 0.6 else ch for ch in inp)
+            ids = []
+            for (p_, i_, f_) in ((pat, inp, "i"), (pat2, inp, "i"), (pat, inp2, "i"), (pat2, inp2, "i"), (pat, inp, "")):
+                cases.append(Case(cid, "xpath", f_, p_, i_, "", "ma", tag=name))
+                ids.append(str(cid))
+                cid += 1
+            groups_.append(ids)
+    # without i a literal matches only the identical character; class escapes ignore the flag
+    exact = []
+    for name, (lower, upper) in CLEAN.items():
+        for a, b in zip(lower, upper):
+            for (p_, i_) in ((a, b), (b, a), ("[" + a + "]", b), (a + "+", b + b)):
+                cases.append(Case(cid, "xpath", "", p_, i_, "", "m", tag="exact"))
+                exact.append(str(cid))
+                cid += 1
+    escs = []
+    for e in ["\\p{Lu}", "\\p{Ll}", "\\P{Lu}", "\\d", "\\w", "\\s", "\\i", "\\c", "[\\p{Lu}]", "[^\\p{Ll}]", "\\p{IsBasicLatin}"]:
+        for name, (lower, upper) in CLEAN.items():
+            for ch in lower + upper + "1 ":
+                a = Case(cid, "xpath", "", e, ch, "", "m", tag="escape")
+                b = Case(cid + 1, "xpath", "i", e, ch, "", "m", tag="escape")
+                cases += [a, b]
+                escs.append((str(cid), str(cid + 1)))
+                cid += 2
+    code, model, dis = run_slice(cases)
+    byid = {c.cid: c for c in cases}
+    violations, nontrivial = [], set()
+    hist = collections.Counter()
+
+    def spans_of(r):
+        a = parse_analyze(r.get("A", ""))
+        return None if a is None else code_spans(a)[0]
+
+    for ids in groups_:
+        rs = [code.get(i, {}) for i in ids]
+        if any(r.get("C") != "ok" for r in rs):
+            continue
+        base = rs[0]
+        nontrivial.add(byid[ids[0]].key())
+        hist["match" if base.get("M") == "1" else "nomatch"] += 1
+        for k in (1, 2, 3):
+            if rs[k].get("M") != base.get("M") or spans_of(rs[k]) != spans_of(base):
+                violations.append(viol(byid[ids[k]], {"M": base.get("M"), "spans": spans_of(base)},
+                                       {"M": rs[k].get("M"), "spans": spans_of(rs[k])},
+                                       "replacing letters by their case counterparts changes the result under flag i (base case: %r on %r)"
+                                       % (byid[ids[0]].pattern, byid[ids[0]].input), None,
+                                       same_as_model(code, model, ids[k])))
+                break
+        if rs[4].get("M") == "1" and base.get("M") != "1":
+            violations.append(viol(byid[ids[0]], "a match without i is a match with i", {"i": base.get("M"), "no-i": "1"},
+                                   "flag i loses a match", None, same_as_model(code, model, ids[0])))
+    for i in exact:
+        if code.get(i, {}).get("M") == "1":
+            violations.append(viol(byid[i], "is_match=0", "is_match=1", "without flag i a letter matches its case counterpart",
+                                   None, same_as_model(code, model, i)))
+    for a, b in escs:
+        if code.get(a, {}).get("M") != code.get(b, {}).get("M"):
+            violations.append(viol(byid[b], code.get(a, {}).get("M"), code.get(b, {}).get("M"),
+                                   "a class escape changes with flag i", None, same_as_model(code, model, b)))
+    return result(ctx, cases, dis, violations, nontrivial,
+                  "metamorphic quintuples over clean alphabets (ASCII, Latin-1, Greek, Cyrillic, Deseret letters + case-less characters): (pattern,input), pattern letters case-swapped, input case-swapped, both, and the original without i; is_match and spans must agree under i, a match without i must persist with i; plus exactness without i and flag-independence of class escapes",
+                  {"distribution": dict(hist)})
+
+
+# ================================================================ C12
+def slice_C12(ctx):
+    rng = ctx.rng
+    inputs = gen.all_strings("ab\n\r", ctx.n(4, 5))
+    pats = ["^", "$", "^a", "a$", "^a$", "^$", "a^b", "a$b", "a\n^b", "a$\nb", "(?:^a|b$)", "(?:^|a)b", "a(?:$|b)", "(^a)+", "(?:a$)+",
+            "^*a", "$?b", "^+a", "${2}", "(?:^|$)a", "^^a", "a$$", ".", "a.b", ".*", "^.*$", "^.$", "[^a]", "(?:.|\n)a", "a.$", "^.a",
+            "\n^", "$\n", "^\n", "\n$", "(?:^a$\n?)+", "a*^b", "\n*$\nb", "(?:a|^)+b", "b(?:$|a)*", "^(?:a|b)*$", "(?:^a|^b)\n"]
+    for _ in range(ctx.n(60, 400)):
+        g = gen.Gen(rng, alphabet="ab\n", feats={"anchor", "dot", "alt", "quant", "nc", "grp", "reluctant"})
+        _, p = g.pattern(rng.randint(2, 6))
+        if any(x in p for x in "^$."):
+            pats.append(p)
+    tuples = []
+    for p in pats:
+        for fl in ("", "m", "s", "ms"):
+            for inp in (inputs if len(p) < 8 or not ctx.quick else rng.sample(inputs, 120)):
+                tuples.append(("xpath", fl, p, inp, ""))
+    cases = mk_cases(tuples, "ma")
+    code, model, dis = run_slice(cases)
+    spec = spec_match(cases)
+    violations, nontrivial = [], set()
+    hist = collections.Counter()
+    for c in cases:
+        s, r = spec.get(c.cid, {}), code.get(c.cid, {})
+        if s.get("V") != "valid" or r.get("C") != "ok" or s.get("bok") != "1":
+            continue
+        same = same_as_model(code, model, c.cid)
+        nontrivial.add((c.flags, c.pattern, c.input))
+        exp = s.get("L", s.get("RM"))
+        hist["match" if exp == "1" else "nomatch"] += 1
+        if r.get("M") != exp:
+            violations.append(viol(c, "is_match=" + exp, "is_match=" + str(r.get("M")),
+                                   "anchors / dot do not follow the position predicates of flags m and s", s, same))
+            continue
+        if s.get("nullable") == "0" and s.get("strict") == "1":
+            a = parse_analyze(r.get("A", ""))
+            if a is not None:
+                spans = code_spans(a)[0]
+                sspans, _ = spec_spans(s.get("SP", ""))
+                if spans != sspans:
+                    violations.append(viol(c, {"spans": sspans}, {"spans": spans},
+                                           "match spans of a pattern with anchors / dot differ from the specification", s, same))
+    return result(ctx, cases, dis, violations, nontrivial,
+                  f"42 hand-written + seeded random patterns with ^, $ and . in every position (start, end, middle, inside groups and alternations, quantified) x every input of length <= {ctx.n(4, 5)} over {{a,b,LF,CR}} x the four combinations of m and s; is_match and spans against the position predicates of the specification",
+                  {"distribution": dict(hist), "exhaustive": True})
+
+
+# ================================================================ C13
+def slice_C13(ctx):
+    rng = ctx.rng
+    alphabet = "()[]{}\\?*+|.^$ab A\n"
+    pats = [p for p in gen.all_strings("([\\?*.^$a", 2) if p] + ["(", ")", "a(", "[a", "a]", "\\", "\\d", "a|b", "a{2}", "^a$", "(?:",
+                                                                   "$1", ".*", " a ", "a\nb", "((", "))", "[]", "[^]", "{", "}", "a**"]
+    for _ in range(ctx.n(400, 4000)):
+        pats.append("".join(rng.choice(alphabet) for _ in range(rng.randint(1, 5))))
+    tuples = []
+    for p in pats:
+        for fl in ("q", "qi", "qm", "qs", "qx", "iq", "qq"):
+            for _ in range(ctx.n(2, 4)):
+                k = rng.random()
+                filler = "".join(rng.choice(alphabet) for _ in range(rng.randint(0, 4)))
+                if k < 0.5:
+                    inp = filler + p + filler[::-1] + (p if rng.random() < 0.3 else "")
+                elif k < 0.7:
+                    inp = filler + p.swapcase() + filler
+                else:
+                    inp = filler
+                tuples.append(("xpath", fl, p, inp, rng.choice(["$1", "\\", "$", "x", "$0", "\\$", "(a)"])))
+    tuples.append(("xpath", "q", "", "abc", "x"))
+    tuples.append(("xsd", "q", "a", "a", "x"))
+    cases = mk_cases(tuples, "mrta")
+    code, model, dis = run_slice(cases)
+    violations, nontrivial = [], set()
+    hist = collections.Counter()
+    for c in cases:
+        r = code.get(c.cid, {})
+        same = same_as_model(code, model, c.cid)
+        if c.dialect == "xsd":
+            if r.get("C") != "E:InvalidFlags":
+                violations.append(viol(c, "E:InvalidFlags", r.get("C"), "flag q accepted in the XSD dialect", None, same))
+            continue
+        if r.get("C") != "ok":
+            violations.append(viol(c, "accepted", r.get("C"), "a literal pattern is rejected under flag q", None, same))
+            continue
+        ci = "i" in c.flags
+        # ASCII-only letters in this alphabet: simple case folding = str.lower
+        hay, needle = (c.input.lower(), c.pattern.lower()) if ci else (c.input, c.pattern)
+        exp_m = "1" if needle in hay else "0"
+        nontrivial.add(c.key())
+        hist["match" if exp_m == "1" else "nomatch"] += 1
+        if r.get("M") != exp_m:
+            violations.append(viol(c, "is_match=" + exp_m, "is_match=" + str(r.get("M")),
+                                   "with flag q is_match is not plain substring search", None, same))
+            continue
+        if c.pattern == "":
+            for k in ("R", "A"):
+                if r.get(k) != "E:MatchesEmptyString":
+                    violations.append(viol(c, "E:MatchesEmptyString", r.get(k), "empty literal", None, same))
+            continue
+        # occurrences, leftmost non-overlapping
+        pieces, pos, n = [], 0, len(needle)
+        occ = []
+        while True:
+            j = hay.find(needle, pos)
+            if j < 0:
+                break
+            pieces.append(c.input[pos:j])
+            occ.append((j, j + n))
+            pos = j + n
+        pieces.append(c.input[pos:])
+        exp_rep = "ok:" + tie.enc(c.repl.join(pieces))
+        exp_tok = pieces if c.input else []
+        toks = parse_tokens(r.get("T", ""))
+        a = parse_analyze(r.get("A", ""))
+        problems = []
+        if r.get("R") != exp_rep:
+            problems.append("replace_all does not use the replacement verbatim")
+        if toks != exp_tok:
+            problems.append("tokenize differs from splitting at the literal")
+        if a is None:
+            problems.append("analyze fails")
+        else:
+            if code_spans(a)[0] != occ:
+                problems.append("analyze spans differ from the occurrences of the literal")
+            if any(any(x[0] == "G" for x in e[1]) for e in a if e[0] == "M"):
+                problems.append("analyze reports a capture group for a literal pattern")
+        if problems:
+            violations.append(viol(c, {"R": exp_rep, "T": exp_tok, "spans": occ}, r, "; ".join(problems), None, same))
+    return result(ctx, cases, dis, violations, nontrivial,
+                  "all strings <= 2 over the metacharacter alphabet ([\\?*.^$a, hand-picked literals (unbalanced brackets, dangling backslash, quantifiers) and random strings over the full metacharacter alphabet, under q / qi / qm / qs / qx / iq / qq; inputs that contain the literal, its case-swapped form, or neither; all four APIs against substring search, str.replace and split",
+                  {"distribution": dict(hist)})
+
+
+# ================================================================ C14
+WS = "\t\n\r "
+NOT_WS = "\x0c\x0b\xa0 　"
+
+
+def tokenise_pattern(p):
+    """split a pattern into tokens between which whitespace may be inserted (outside classes)"""
+    toks, i, depth = [], 0, 0
+    cur = ""
+    while i < len(p):
+        ch = p[i]
+        if ch == "\\" and i + 1 < len(p):
+            unit = p[i:i + 2]
+            if unit in ("\\p", "\\P") and i + 2 < len(p) and p[i + 2] == "{":
+                j = p.find("}", i)
+                unit = p[i:j + 1] if j > 0 else unit
+            i += len(unit)
+        else:
+            unit = ch
+            i += 1
+            if ch == "[":
+                depth += 1
+            elif ch == "]":
+                depth -= 1
+        if depth > 0 or (unit == "]" and depth == 0 and cur):
+            cur += unit
+            if depth == 0:
+                toks.append(cur)
+                cur = ""
+        else:
+            toks.append(unit)
+    if cur:
+        toks.append(cur)
+    return toks
+
+
+def slice_C14(ctx):
+    rng = ctx.rng
+    cases, pairs = [], []
+    cid = 0
+    for _ in range(ctx.n(2500, 25000)):
+        al = rng.choice(["ab", "abc", "ab1"])
+        g = gen.Gen(rng, alphabet=al)
+        ast, pat = g.pattern(rng.randint(1, 9))
+        if rng.random() < 0.1:
+            pat = gen.mutate(rng, pat)          # rejected iff the stripped pattern is
+        toks = tokenise_pattern(pat)
+        ws_pat = ""
+        for t in toks:
+            if rng.random() < 0.35:
+                ws_pat += "".join(rng.choice(WS) for _ in range(rng.randint(1, 2)))
+            ws_pat += t
+            # whitespace after a backslash belongs to the property too: "\ n" -> "\n"
+        if rng.random() < 0.3:
+            ws_pat += rng.choice(WS)
+        fl = rng.choice(["", "i", "m", "s"])
+        for inp in gen.inputs_for(rng, al + " ", 3):
+            a = Case(cid, "xpath", fl, pat, inp, "<$0>", "mrta", tag="orig")
+            b = Case(cid + 1, "xpath", fl + "x", ws_pat, inp, "<$0>", "mrta", tag="ws")
+            cases += [a, b]
+            pairs.append((str(cid), str(cid + 1)))
+            cid += 2
+    # whitespace inside classes is kept; other characters are never removed
+    keep = []
+    for p, inp, exp in [("[ ]", " ", "1"), ("[ ]", "a", "0"), ("[a b]", " ", "1"), ("a[ ]b", "a b", "1"), ("a[ ]b", "ab", "0"),
+                        ("[^ ]", " ", "0"), ("[a-[ ]]", "a", "1"), ("\\[ a", "[a", "1"),
+                        ("a\\ b", "ab", None), ("[\\] ]", " ", "1"), ("[\\]] a", "]a", "1")]:
+        c = Case(cid, "xpath", "x", p, inp, "", "m", tag="class-ws")
+        cases.append(c)
+        keep.append((str(cid), exp))
+        cid += 1
+    for w in NOT_WS:
+        for (p, inp, exp) in (("a" + w + "b", "ab", "0"), ("a" + w + "b", "a" + w + "b", "1")):
+            c = Case(cid, "xpath", "x", p, inp, "", "m", tag="not-ws")
+            cases.append(c)
+            keep.append((str(cid), exp))
+            cid += 1
+    code, model, dis = run_slice(cases)
+    byid = {c.cid: c for c in cases}
+    violations, nontrivial = [], set()
+    hist = collections.Counter()
+    for a, b in pairs:
+        ra, rb = code.get(a, {}), code.get(b, {})
+        hist[ra.get("C", "?")] += 1
+        if ra.get("C") == "ok":
+            nontrivial.add(byid[b].key())
+        if ra != rb:
+            violations.append(viol(byid[b], ra, rb, "under flag x the pattern with whitespace inserted behaves differently from the pattern without it (%r)" % byid[a].pattern,
+                                   None, same_as_model(code, model, b)))
+    for i, exp in keep:
+        r = code.get(i, {})
+        if exp is not None and r.get("M") != exp:
+            violations.append(viol(byid[i], "is_match=" + exp, r, "whitespace inside a class must be kept / a non-whitespace character must never be removed",
+                                   None, same_as_model(code, model, i)))
+    return result(ctx, cases, dis, violations, nontrivial,
+                  "metamorphic pairs: a generated (sometimes mutated, hence invalid) pattern without x vs the same pattern with U+9/A/D/20 inserted at token boundaries outside classes (also after backslashes, next to escaped brackets, at the end) under x: all five API results must be identical; plus whitespace inside classes and FF, VT, NBSP, U+2028, U+3000 which must stay",
+                  {"distribution": dict(hist)})
+
+
+# ================================================================ C15
 C15_PATTERNS = [
     ("ab", 0), ("a+", 0), ("(a)b", 1), ("(a)|b", 1), ("(a)(b)?", 2), ("((a)|(b))c", 3),
     ("(a)(b)(c)(d)(e)(f)(g)(h)(i)", 9), ("(a)(b)(c)(d)(e)(f)(g)(h)(i)(j)", 10),
@@ -105,31 +1218,27 @@ C15_INPUTS = ["", "xyz", "ab", "xabcdefghijklx", "abcdefghijklabcdefghij", "bcac
 def slice_C15(ctx):
     rng = ctx.rng
     alphabet = "$\\0129a"
-    repls = gen.all_strings(alphabet, 3 if ctx.quick else 4)
-    # plus a random stream of longer ones
-    for _ in range(300 if ctx.quick else 3000):
+    repls = gen.all_strings(alphabet, ctx.n(3, 4))
+    for _ in range(ctx.n(300, 3000)):
         repls.append("".join(rng.choice(alphabet + "1$") for _ in range(rng.randint(4, 8))))
-    cases = []
-    meta = {}
+    cases, meta = [], {}
     cid = 0
     for pat, k in C15_PATTERNS:
         for inp in C15_INPUTS:
-            rs = repls if (ctx.tier == "thorough" or k in (1, 12)) else rng.sample(repls, 120)
+            rs = repls if (not ctx.quick or k in (1, 12)) else rng.sample(repls, 120)
             for r in rs:
                 c = Case(cid, "xpath", "", pat, inp, r, "ra", tag=f"groups={k}")
                 cases.append(c)
-                meta[c.cid] = (c, k)
+                meta[c.cid] = k
                 cid += 1
     code, model, dis = run_slice(cases)
     # oracle: the code's replace_all against Spec.Repl applied to the code's own analyze output
-    spec_lines = []
-    plan = {}
+    spec_lines, plan = [], {}
     for c in cases:
-        res = code.get(c.cid, {})
-        a = parse_analyze(res.get("A", ""))
+        a = parse_analyze(code.get(c.cid, {}).get("A", ""))
         if a is None:
             continue
-        k = meta[c.cid][1]
+        k = meta[c.cid]
         plan[c.cid] = []
         for j, e in enumerate(a):
             if e[0] == "M":
@@ -141,15 +1250,14 @@ def slice_C15(ctx):
                 plan[c.cid].append(("M", sid))
             else:
                 plan[c.cid].append(("N", e[1]))
-    spec = spec_call(spec_lines) if spec_lines else {}
-    violations = []
-    nontrivial = set()
-    hist = {"no_match": 0, "invalid_repl": 0, "expanded": 0}
+    spec = spec_call(spec_lines)
+    violations, nontrivial = [], set()
+    hist = collections.Counter()
     for c in cases:
+        same = same_as_model(code, model, c.cid)
         if c.cid not in plan:
-            res = code.get(c.cid, {})
-            violations.append({"case": c.to_json(), "expected": "analyze and replace_all complete normally",
-                               "got": res, "why": "abnormal outcome on a non-nullable pattern"})
+            violations.append(viol(c, "analyze and replace_all complete normally", code.get(c.cid, {}),
+                                   "abnormal outcome on a non-nullable pattern", None, same))
             continue
         got = code[c.cid].get("R")
         pl = plan[c.cid]
@@ -166,51 +1274,519 @@ def slice_C15(ctx):
                 hist["expanded"] += 1
             nontrivial.add(c.key())
         if got != expected:
-            violations.append({"case": c.to_json(), "expected": expected, "got": got,
-                               "why": "replace_all differs from the replacement grammar applied to the code's own matches and groups"})
-    return {"evaluations": len(cases), "distinct_nontrivial": len(nontrivial),
-            "rule": "all replacement strings up to length %d over {$,\\,0,1,2,9,a} plus a seeded random stream, x 10 patterns with 0..12 groups x 7 inputs (0/1/2+ matches); non-trivial = distinct (pattern,input,replacement) with at least one match" % (3 if ctx.quick else 4),
-            "samples": [c.to_json() for c in rng.sample(cases, 5)],
-            "disagreements": dis, "violations": violations,
-            "extra": {"distribution": hist, "exhaustive": False}}
+            violations.append(viol(c, expected, got, "replace_all differs from the replacement grammar applied to the code's own matches and groups",
+                                   None, same))
+    return result(ctx, cases, dis, violations, nontrivial,
+                  "all replacement strings up to length %d over {$,\\,0,1,2,9,a} plus a seeded random stream, x 10 patterns with 0..12 groups x 7 inputs (0/1/2+ matches); non-trivial = distinct (pattern,input,replacement) with at least one match" % ctx.n(3, 4),
+                  {"distribution": dict(hist), "exhaustive": False})
 
 
-SLICES = {"C15": slice_C15}
+# ================================================================ C16
+def slice_C16(ctx):
+    rng = ctx.rng
+    tuples = []
+    hand = ["", "a?", "a*", "a*?", "(?:a|)", "(a)?", "^", "$", "^$", "^*", "(?:^|a)", "a|", "|a", "()", "(a*)(b*)", "a{0}", "a{0,2}", "(?:a?)+",
+            "(?:a|b?)", "(a?)\\1", "(a)?\\1", "(a|b)*\\1?", "(?:(a)|b)\\1", "a", "a+", "ab?", "^a", "a$", "(a)\\1", "(a?)b\\1", "\\n?", ".?", ".*",
+            "[ab]*", "(?:a*)*", "(?:a+)?", "(?:a|^)", "(?:$|a)+", "(?:a(A))*\\1", "(^a)?", "(?:^a)*b?"]
+    for p in hand:
+        for fl in ("", "m", "i"):
+            for inp in ("", "a", "ab", "ba\n", "aab"):
+                tuples.append(("xpath", fl, p, inp, "-"))
+    for d, fl, pat, inp, ast in random_stream(ctx, ctx.n(8000, 80000), per_pattern=3, size=(1, 6),
+                                              dialects=("xpath", "xpath", "xsd"), extra_inputs=("",)):
+        tuples.append((d, fl, pat, inp, "-"))
+    cases = mk_cases(tuples, "mrta")
+    code, model, dis = run_slice(cases)
+    spec = spec_match(cases)
+    violations, nontrivial = [], set()
+    hist = collections.Counter()
+    for c in cases:
+        s, r = spec.get(c.cid, {}), code.get(c.cid, {})
+        if r.get("C") != "ok":
+            continue
+        same = same_as_model(code, model, c.cid)
+        errs = [r.get("R") == "E:MatchesEmptyString", r.get("A") == "E:MatchesEmptyString"]
+        tok_err = r.get("T") == "E:MatchesEmptyString"
+        problems = []
+        if errs[0] != errs[1]:
+            problems.append("replace_all and analyze disagree about MatchesEmptyString")
+        if c.input == "":
+            if r.get("T") != "ok:[]":
+                problems.append("tokenize on the empty input does not return no tokens")
+        elif tok_err != errs[0]:
+            problems.append("tokenize disagrees with replace_all about MatchesEmptyString")
+        if s.get("V") == "valid" and s.get("bok") == "1":
+            nullable = s.get("nullable") == "1"
+            nontrivial.add((c.dialect, c.flags, c.pattern))
+            hist["nullable" if nullable else "non-nullable"] += 1
+            if nullable != errs[0]:
+                problems.append(f"the regex {'matches' if nullable else 'does not match'} the zero-length string but replace_all returns {r.get('R')}")
+        if not errs[0] and not problems:
+            a = parse_analyze(r.get("A", ""))
+            if a is None:
+                problems.append("analyze does not complete")
+            elif any(e[0] == "M" and tree_text(e[1]) == "" for e in a):
+                problems.append("a zero-length match is reported")
+        if problems:
+            violations.append(viol(c, "MatchesEmptyString iff the regex matches the zero-length string; no zero-length match otherwise",
+                                   r, "; ".join(problems), s, same))
+    return result(ctx, cases, dis, violations, nontrivial,
+                  "41 hand-written nullable / non-nullable / anchors-only / optional-group / back-reference shapes x 3 flag sets x 5 inputs, plus seeded random patterns in both dialects x 4 inputs; the up-front error of replace_all / analyze / tokenize against the specification's 'matches the zero-length string', tokenize on the empty input, and absence of zero-length matches",
+                  {"distribution": dict(hist)})
 
 
-# ---------------------------------------------------------------- known findings, replay
+# ================================================================ C17
+def slice_C17(ctx):
+    rng = ctx.rng
+    base = grammar_check(ctx, ("xsd",), "C17")
+    # the common subset: identical results under both dialects
+    cases, pairs = [], []
+    cid = 10 ** 7
+    ext = ["a*?", "a+?b", "a??", "a{1,2}?", "(?:a)", "(?:a|b)c", "(a)\\1", "\\$", "a\\$b", "(a)(b)\\2", "^a", "a$", "^", "$", "a^b", "a$b", "[$^]", "a|^", "(^)", "\\^"]
+    extra = []
+    for p in ext:
+        for inp in ("", "a", "ab", "aa", "a$b", "a^b", "^a", "a$", "$", "^", "$^"):
+            extra.append(("xsd", "", p, inp, "-", "ext"))
+            extra.append(("xpath", "", p, inp, "-", "ext"))
+    for d, fl, pat, inp, ast in random_stream(ctx, ctx.n(6000, 60000), feats={"cls", "esc", "grp", "alt", "quant", "dot"},
+                                              flagsets=["", "i", "s", "is", "x"], per_pattern=3, dialects=("xsd",)):
+        a = Case(cid, "xsd", fl, pat, inp, "[$1]", "mrta", tag="common")
+        b = Case(cid + 1, "xpath", fl, pat, inp, "[$1]", "mrta", tag="common")
+        cases += [a, b]
+        pairs.append((str(cid), str(cid + 1)))
+        cid += 2
+    ext_cases = mk_cases(extra, "mrta", start=cid)
+    code, model, dis = run_slice(cases + ext_cases)
+    byid = {c.cid: c for c in cases + ext_cases}
+    violations = base["violations"]
+    nontrivial = set()
+    for a, b in pairs:
+        ra, rb = code.get(a, {}), code.get(b, {})
+        if ra.get("C") == "ok" and rb.get("C") == "ok" and "^" not in byid[a].pattern and "$" not in byid[a].pattern:
+            nontrivial.add(byid[a].key())
+            if ra != rb:
+                violations.append(viol(byid[a], rb, ra, "a pattern of the common subset behaves differently under the two dialects",
+                                       None, same_as_model(code, model, a) and same_as_model(code, model, b)))
+    xpath_only = {"a*?", "a+?b", "a??", "a{1,2}?", "(?:a)", "(?:a|b)c", "(a)\\1", "\\$", "a\\$b", "(a)(b)\\2"}
+    for c in ext_cases:
+        r = code.get(c.cid, {})
+        same = same_as_model(code, model, c.cid)
+        if c.dialect != "xsd":
+            continue
+        if c.pattern in xpath_only:
+            if r.get("C") == "ok":
+                violations.append(viol(c, "rejected with an error", r.get("C"), "an XPath extension is accepted by Regex::xsd", None, same))
+        else:
+            # ^ and $ are ordinary characters
+            lit = c.pattern.replace("\\^", "^")
+            if r.get("C") != "ok":
+                violations.append(viol(c, "accepted", r.get("C"), "^ / $ are not ordinary characters in the XSD dialect", None, same))
+            elif c.pattern in ("^a", "a$", "^", "$", "a^b", "a$b", "\\^"):
+                exp = "1" if lit in c.input else "0"
+                if r.get("M") != exp:
+                    violations.append(viol(c, "is_match=" + exp, r.get("M"), "^ / $ do not match themselves in the XSD dialect", None, same))
+    allcases = cases + ext_cases
+    r = result(ctx, allcases, base["disagreements"] + dis, violations, nontrivial | set(),
+               base["rule"] + "; plus every generated XSD pattern compiled under both dialects (all five API results must be identical when both accept and the pattern has no ^ or $), the XPath extensions (reluctant quantifiers, (?:), back-references, \\$) which Regex::xsd must reject, and ^ / $ as ordinary characters",
+               base["extra"])
+    r["evaluations"] += base["evaluations"]
+    r["distinct_nontrivial"] += base["distinct_nontrivial"]
+    return r
+
+
+# ================================================================ C18
+def slice_C18(ctx):
+    rng = ctx.rng
+    # a pool of regexes and a history of calls with interleaved, partially consumed iterators
+    pool = []
+    while len(pool) < ctx.n(12, 24):
+        g = gen.Gen(rng, alphabet=rng.choice(["ab", "abc", "aAb"]))
+        _, p = g.pattern(rng.randint(1, 7))
+        pool.append((rng.choice(["xpath", "xpath", "xsd"]) if "?:" not in p and "\\1" not in p else "xpath", rng.choice(["", "i", "m", "s"]), p))
+    pool += [("xpath", "", "^(?:yy|y|(?:ab|c)*d){3}$"), ("xpath", "", "(?:a|b)*c"), ("xpath", "", "\\p{IsGreek}+|\\p{IsBasicLatin}")]
+    ops, expect_cases = [], []
+    handles = 0
+    live = []
+    nops = ctx.n(1500, 15000)
+    for k in range(nops):
+        r = rng.randrange(len(pool))
+        inp = "".join(rng.choice("abcyd\nA") for _ in range(rng.randint(0, 6)))
+        kind = rng.random()
+        if kind < 0.25:
+            ops.append(("m", r, inp))
+        elif kind < 0.4:
+            ops.append(("r", r, inp, rng.choice(["-", "$0", "[$1]"])))
+        elif kind < 0.55:
+            ops.append(("T", r, inp, handles))
+            live.append(("t", handles, r, inp))
+            handles += 1
+        elif kind < 0.7:
+            ops.append(("A", r, inp, handles))
+            live.append(("a", handles, r, inp))
+            handles += 1
+        elif live and kind < 0.95:
+            h = rng.choice(live)
+            ops.append(("N", h[1]))
+        elif live:
+            h = live.pop(rng.randrange(len(live)))
+            ops.append(("D", h[1]))
+        else:
+            ops.append(("m", r, inp))
+    lines = []
+    for i, (d, f, p) in enumerate(pool):
+        lines.append("\t".join(["R", str(i), d, tie.enc(f), tie.enc(p)]))
+    for k, op in enumerate(ops):
+        if op[0] == "m":
+            lines.append("\t".join(["m", str(k), str(op[1]), tie.enc(op[2])]))
+        elif op[0] == "r":
+            lines.append("\t".join(["r", str(k), str(op[1]), tie.enc(op[2]), tie.enc(op[3])]))
+        elif op[0] in ("T", "A"):
+            lines.append("\t".join([op[0], str(k), str(op[1]), tie.enc(op[2]), str(op[3])]))
+        else:
+            lines.append("\t".join([op[0], str(k), str(op[1])]))
+    os.makedirs(tie.WORK, exist_ok=True)
+    path = os.path.join(tie.WORK, f"hist_{ctx.seed}.txt")
+    open(path, "w").write("\n".join(lines) + "\n")
+    outs = {}
+    for mode in ("shared", "threads", "fresh"):
+        p = subprocess.run([tie.HARNESS, "history", mode], stdin=open(path), capture_output=True, text=True)
+        if p.returncode != 0:
+            raise RuntimeError("history harness failed: " + p.stderr[-500:])
+        outs[mode] = dict(l.split("\t", 1) for l in p.stdout.splitlines() if "\t" in l)
+    # the model's pure function for every call: compile fresh, run the whole iterator
+    cases, where = [], {}
+    cid = 0
+    hinfo = {}
+    for k, op in enumerate(ops):
+        if op[0] in ("m", "r"):
+            d, f, p = pool[op[1]]
+            c = Case(cid, d, f, p, op[2], op[3] if op[0] == "r" else "", op[0])
+            cases.append(c)
+            where[k] = (c.cid, "M" if op[0] == "m" else "R")
+            cid += 1
+        elif op[0] in ("T", "A"):
+            d, f, p = pool[op[1]]
+            c = Case(cid, d, f, p, op[2], "", op[0].lower())
+            cases.append(c)
+            hinfo[op[3]] = (c.cid, op[0], 0)
+            where[k] = (c.cid, "open" + op[0])
+            cid += 1
+    code, model, dis = run_slice(cases)
+    violations, nontrivial = [], set()
+    byid = {c.cid: c for c in cases}
+    # expected item sequence per handle from the model
+    def items_of(res, kind):
+        if res is None:
+            return None
+        v = res.get("T" if kind == "T" else "A")
+        if v is None:
+            return ["C:" + res.get("C", "?")]
+        if not v.startswith("ok:"):
+            return ["ERR:" + v]
+        if kind == "T":
+            toks = parse_tokens(v)
+            return None if toks is None else ["tok:" + tie.enc(t) for t in toks]
+        a = parse_analyze(v)
+        if a is None:
+            return None
+        # re-encode each entry as the harness prints it
+        out, pos, s = [], 3, v
+        depth, start = 0, 3
+        for i in range(3, len(s)):
+            if s[i] == "(":
+                depth += 1
+            elif s[i] == ")":
+                depth -= 1
+                if depth == 0:
+                    out.append("ent:" + s[start:i + 1])
+                    start = i + 1
+        return out
+    progress = {}
+    for k, op in enumerate(ops):
+        for mode in ("shared", "threads", "fresh"):
+            got = outs[mode].get(str(k))
+            if op[0] in ("m", "r"):
+                cidk, fld = where[k]
+                res = model.get(cidk, {})
+                exp = res.get(fld) if res.get("C") == "ok" else "C:" + res.get("C", "?")
+                if got != exp:
+                    violations.append({"case": byid[cidk].to_json(), "expected": exp, "got": got, "mode": mode, "op_index": k,
+                                       "why": "a call's result differs from the pure function of (pattern, flags, dialect, arguments)",
+                                       "history_file": path})
+                else:
+                    nontrivial.add((byid[cidk].key(), mode))
+            elif op[0] in ("T", "A"):
+                cidk, _ = where[k]
+                res = model.get(cidk, {})
+                seq = items_of(res, op[0])
+                first = seq[0] if seq and (seq[0].startswith("ERR:") or seq[0].startswith("C:")) else "open"
+                if got != first:
+                    violations.append({"case": byid[cidk].to_json(), "expected": first, "got": got, "mode": mode, "op_index": k,
+                                       "why": "opening an iterator gives a different outcome than on a fresh regex", "history_file": path})
+            elif op[0] == "N":
+                h = op[1]
+                cidk, kind, _ = hinfo[h]
+                seq = items_of(model.get(cidk, {}), kind)
+                n = progress.get((mode, h), 0)
+                if seq is None or (seq and (seq[0].startswith("ERR:") or seq[0].startswith("C:"))):
+                    exp = "closed"
+                else:
+                    exp = seq[n] if n < len(seq) else "none"
+                progress[(mode, h)] = n + 1
+                if got != exp:
+                    violations.append({"case": byid[cidk].to_json(), "expected": exp, "got": got, "mode": mode, "op_index": k,
+                                       "why": f"item {n} of an interleaved iterator differs from the same iterator run alone on a fresh regex",
+                                       "history_file": path})
+                else:
+                    nontrivial.add((byid[cidk].key(), mode, n))
+    r = result(ctx, cases, dis, violations[:50], nontrivial,
+               f"one seeded history of {nops} operations (is_match, replace_all, open tokenize/analyze, next on a live iterator, drop) over a pool of {len(pool)} regexes with interleaved, partially consumed iterators; executed on shared objects sequentially, from 8 threads on shared objects (each thread the whole history), and on freshly compiled objects; every result compared with the model's pure function of (pattern, flags, dialect, arguments)",
+               {"operations": nops, "modes": ["shared", "threads(8)", "fresh"], "send_sync_assert": "compile-time assert in the harness"})
+    r["evaluations"] = nops * 3
+    return r
+
+
+# ================================================================ C19
+def slice_C19(ctx):
+    rng = ctx.rng
+    tuples = []
+    hand = ["(a)\\1", "(a|b)\\1", "(a*)\\1", "(a)(b)\\2\\1", "(?:(a)|b)\\1", "(a)?\\1", "(a)|\\1b"[:0] or "(a)|b\\1", "(?:(a)|(b))\\2", "(a)\\1*", "(a\\1)"[:0] or "(a)(\\1)",
+            "((a)\\2)", "(a+)b\\1", "(a+?)\\1", "(a|ab)\\1", "([ab])\\1", "(.)\\1", "(a)(b)(c)(d)(e)(f)(g)(h)(i)(j)\\10", "(a)(b)(c)(d)(e)(f)(g)(h)(i)(j)\\1" + "0",
+            "(a)\\10", "(a)\\11", "(a)(b)\\12", "(a)\\1{2}", "(?:(a)\\1)+", "(a)(?:\\1|b)", "(a*)b\\1", "(a?)\\1c", "^(a)\\1$", "(a)x\\1", "(A)\\1", "(a)\\1\\1"]
+    for p in hand:
+        for fl in ("", "i"):
+            for inp in gen.all_strings("ab", 4) + ["aA", "Aa", "abcdefghijj", "abcdefghija0", "a0", "aa0", "a1", "ab12", "aab", "aAa"]:
+                tuples.append(("xpath", fl, p, inp, "<$1>"))
+    for d, fl, pat, inp, ast in random_stream(ctx, ctx.n(15000, 150000), feats={"grp", "bref", "alt", "quant", "reluctant", "nc", "cls"},
+                                              flagsets=["", "i"], alphabets=["ab", "aAb", "abc"], per_pattern=5, size=(3, 9)):
+        if gen.has(ast, {"bref"}):
+            tuples.append((d, fl, pat, inp, "<$1>"))
+    cases = mk_cases(tuples, "mra")
+    code, model, dis = run_slice(cases)
+    spec = spec_match(cases)
+    violations, nontrivial = [], set()
+    hist = collections.Counter()
+    for c in cases:
+        s, r = spec.get(c.cid, {}), code.get(c.cid, {})
+        same = same_as_model(code, model, c.cid)
+        if s.get("V") == "valid" and r.get("C") != "ok":
+            violations.append(viol(c, "accepted", r.get("C"), "a valid pattern with back-references is rejected", s, same))
+            continue
+        if s.get("V") == "invalid" and r.get("C") == "ok":
+            violations.append(viol(c, "E:Syntax", r.get("C"), "an ill-scoped back-reference is accepted", s, same))
+            continue
+        if s.get("V") != "valid" or s.get("bok") != "1" or r.get("C") != "ok":
+            continue
+        nontrivial.add((c.flags, c.pattern, c.input))
+        hist["match" if s.get("RM") == "1" else "nomatch"] += 1
+        if r.get("M") != s.get("RM"):
+            violations.append(viol(c, "is_match=" + s.get("RM"), "is_match=" + str(r.get("M")),
+                                   "is_match differs from an exhaustive exploration of all match paths with back-references as copies of their group", s, same))
+            continue
+        if s.get("nullable") == "0" and s.get("strict") == "1":
+            a = parse_analyze(r.get("A", ""))
+            if a is None:
+                violations.append(viol(c, "analyze completes", r.get("A"), "abnormal analyze outcome", s, same))
+                continue
+            spans, groups, _ = code_spans(a)
+            sspans, sgroups = spec_spans(s.get("SP", ""))
+            if spans != sspans:
+                violations.append(viol(c, {"spans": sspans}, {"spans": spans}, "spans differ from the ordered-choice reference", s, same))
+    return result(ctx, cases, dis, violations, nontrivial,
+                  "32 hand-written back-reference shapes (groups in sequence, in an earlier alternative, inside repetitions, optional, nested, 10+ groups with the longest-number rule) x {'', i} x every input <= 4 over {a,b} and digit-suffixed inputs, plus seeded random patterns containing back-references x 5 inputs; acceptance, is_match (all paths) and spans (ordered-choice reference)",
+                  {"distribution": dict(hist)})
+
+
+# ================================================================ C20
+def rewrite_once(rng, node, alphabet):
+    """apply one law of regular-expression algebra somewhere in the AST.  Returns (new, law, order_ok)
+    or None.  order_ok: the law also preserves ordered choice (spans are compared)."""
+    sites = []
+
+    def walk(nd, path):
+        sites.append((nd, path))
+        t = nd[0]
+        if t in ("grp", "nc"):
+            walk(nd[1], path + (1,))
+        elif t in ("seq", "alt"):
+            for i, x in enumerate(nd[1]):
+                walk(x, path + (1, i))
+        elif t == "q":
+            walk(nd[1], path + (1,))
+
+    walk(node, ())
+    rng.shuffle(sites)
+
+    def nocap(nd):
+        return gen.count_groups(nd) == 0
+
+    for nd, path in sites:
+        t = nd[0]
+        opts = []
+        if t not in ("alt",):
+            opts.append((("nc", nd), "wrap in (?:)", True))
+        opts.append((("q", nd, 1, 1, True), "r{1} = r", True))
+        if t == "q" and nocap(nd[1]):
+            body, mn, mx, gr = nd[1], nd[2], nd[3], nd[4]
+            if gr and mx is not None and mx <= 4 and (mn, mx) != (1, 1):
+                opt = ("q", ("nc", body), 0, 1, True)
+                opts.append((("seq", [body] * mn + [opt] * (mx - mn)) if mx > 0 else ("seq", []),
+                             "r{n,m} = n copies then m-n optional copies", True))
+            if gr and mx is None and mn <= 4:
+                opts.append((("seq", [body] * mn + [("q", body, 0, None, True)]), "r{n,} = n copies then r*", True))
+            if gr and (mn, mx) == (1, None):
+                opts.append((("seq", [body, ("q", body, 0, None, True)]), "r+ = rr*", True))
+        if t == "chr":
+            opts.append((("cls", False, [("c", nd[1])], None), "x = [x]", True))
+        if t == "cls" and not nd[1] and nd[3] is None and all(it[0] == "c" for it in nd[2]) and len(nd[2]) == 2:
+            opts.append((("nc", ("alt", [("chr", nd[2][0][1]), ("chr", nd[2][1][1])])), "[xy] = (?:x|y)", True))
+        if nocap(nd):
+            opts.append((("nc", ("alt", [nd, nd])), "r|r = r", True))
+        if t == "seq" and len(nd[1]) >= 2 and nd[1][0][0] == "alt" and len(nd[1][0][1]) == 2 and nocap(nd):
+            r_, s_ = nd[1][0][1]
+            rest = nd[1][1:]
+            opts.append((("nc", ("alt", [("seq", [r_] + rest), ("seq", [s_] + rest)])), "(?:r|s)t = rt|st", True))
+        if t == "grp":
+            opts.append((("__ungroup__", nd[1]), "unreferenced capturing group -> (?:)", True))
+        if not opts:
+            continue
+        new, law, order_ok = rng.choice(opts)
+
+        def rebuild(cur, pth):
+            if not pth:
+                return new
+            t2 = cur[0]
+            if t2 in ("grp", "nc"):
+                return (t2, rebuild(cur[1], pth[1:]))
+            if t2 == "q":
+                return ("q", rebuild(cur[1], pth[1:]), cur[2], cur[3], cur[4])
+            i = pth[1]
+            l = list(cur[1])
+            l[i] = rebuild(l[i], pth[2:])
+            return (t2, l)
+
+        out = rebuild(node, path)
+        if new[0] == "__ungroup__":
+            if gen.has(node, {"bref"}):
+                continue
+            out = rebuild(node, path)
+
+            def fix(n_):
+                if n_[0] == "__ungroup__":
+                    return ("nc", fix(n_[1]))
+                if n_[0] in ("grp", "nc"):
+                    return (n_[0], fix(n_[1]))
+                if n_[0] in ("seq", "alt"):
+                    return (n_[0], [fix(x) for x in n_[1]])
+                if n_[0] == "q":
+                    return ("q", fix(n_[1]), n_[2], n_[3], n_[4])
+                return n_
+            out = fix(out)
+        return out, law, order_ok
+    return None
+
+
+def slice_C20(ctx):
+    rng = ctx.rng
+    cases, pairs = [], []
+    cid = 0
+    laws = collections.Counter()
+    target = ctx.n(4000, 40000)
+    while len(pairs) < target:
+        al = rng.choice(["ab", "abc", "ab\n"])
+        g = gen.Gen(rng, alphabet=al, feats={"cls", "grp", "nc", "alt", "quant", "dot", "anchor", "reluctant"}, max_rep=2)
+        ast, pat = g.pattern(rng.randint(1, 7))
+        rw = rewrite_once(rng, ast, al)
+        if rw is None:
+            continue
+        ast2, law, order_ok = rw
+        try:
+            pat2 = gen.pp(ast2)
+        except Exception:
+            continue
+        # the group-removal law changes group numbers: compare spans only, not $N
+        fl = rng.choice(["", "i", "m", "s"])
+        for inp in gen.inputs_for(rng, al, 4):
+            a = Case(cid, "xpath", fl, pat, inp, "<$0>", "mra", tag=law)
+            b = Case(cid + 1, "xpath", fl, pat2, inp, "<$0>", "mra", tag=law)
+            cases += [a, b]
+            pairs.append((str(cid), str(cid + 1), law, order_ok))
+            cid += 2
+        laws[law] += 1
+    code, model, dis = run_slice(cases)
+    spec = spec_match([c for c in cases])
+    byid = {c.cid: c for c in cases}
+    violations, nontrivial = [], set()
+    for a, b, law, order_ok in pairs:
+        ra, rb = code.get(a, {}), code.get(b, {})
+        sa, sb = spec.get(a, {}), spec.get(b, {})
+        if sa.get("V") != "valid" or sb.get("V") != "valid":
+            continue
+        same = same_as_model(code, model, a) and same_as_model(code, model, b)
+        merged = dict(sa)
+        for k in ("k1", "k2", "k3"):
+            merged[k] = "1" if sa.get(k) == "1" or sb.get(k) == "1" else "0"
+        if ra.get("C") != "ok" or rb.get("C") != "ok":
+            violations.append(viol(byid[b], "both spellings accepted", {"lhs": ra.get("C"), "rhs": rb.get("C")},
+                                   f"law '{law}': one spelling is rejected (lhs {byid[a].pattern!r})", merged, same))
+            continue
+        nontrivial.add(byid[a].key())
+        if ra.get("M") != rb.get("M"):
+            violations.append(viol(byid[b], {"M": ra.get("M")}, {"M": rb.get("M")},
+                                   f"law '{law}' changes is_match (lhs {byid[a].pattern!r})", merged, same))
+            continue
+        if order_ok and sa.get("strict") == "1" and sb.get("strict") == "1" and ra.get("R") != "E:MatchesEmptyString":
+            pa, pb = parse_analyze(ra.get("A", "")), parse_analyze(rb.get("A", ""))
+            if pa is not None and pb is not None and code_spans(pa)[0] != code_spans(pb)[0]:
+                violations.append(viol(byid[b], {"spans": code_spans(pa)[0]}, {"spans": code_spans(pb)[0]},
+                                       f"law '{law}' changes the match spans (lhs {byid[a].pattern!r})", merged, same))
+    return result(ctx, cases, dis, violations, nontrivial,
+                  "one law applied at a random position of a generated pattern (wrap in (?:), r{1}=r, r{n,m} expansion, r{n,} expansion, r+=rr*, x=[x], [xy]=(?:x|y), r|r=r, (?:r|s)t=rt|st, unreferenced group -> (?:)); both spellings on 4 inputs x flags; is_match always, spans where the law preserves ordered choice and no quantifier body is nullable; expansion laws only on bodies without capturing groups",
+                  {"laws": dict(laws)})
+
+
+# ================================================================ registry, known findings, replay
+SLICES = {"C01": slice_C01, "C02": slice_C02, "C03": slice_C03, "C04": slice_C04, "C05": slice_C05, "C06": slice_C06,
+          "C07": slice_C07, "C08": slice_C08, "C09": slice_C09, "C10": slice_C10, "C11": slice_C11, "C12": slice_C12,
+          "C13": slice_C13, "C14": slice_C14, "C15": slice_C15, "C16": slice_C16, "C17": slice_C17, "C18": slice_C18,
+          "C19": slice_C19, "C20": slice_C20}
+
+
 def attribute_known(prop, sl):
-    """mark violations that a listed known finding explains; returns {finding id: text}"""
+    """A violation is explained by a listed finding iff the pattern is in the finding's decidable
+    class (computed by the extracted Coq predicate) AND the code's output equals the faithful
+    model's (which pins the known wrong behaviour exactly).  Returns {finding id: text}."""
     known = core.load_known(prop)
     hits = {}
     for v in sl["violations"]:
         for k in known:
-            pred = KNOWN_CLASSES.get(k["class"])
-            if pred and pred(v, k):
+            cls = k["class"]
+            in_class = (v.get("spec") or {}).get(cls) == "1" if cls in ("k1", "k2", "k3") else False
+            if in_class and v.get("code_equals_model"):
                 v["known"] = k["id"]
                 hits[k["id"]] = k["what"]
                 break
-    # listed findings are always announced, whether or not this run's sample hit them
     for k in known:
         hits.setdefault(k["id"], k["what"])
     return hits
 
 
-KNOWN_CLASSES = {}
-
-
 def replay(prop, path, tier, seed):
     d = json.load(open(path))
     if "case" not in d:
-        print(f"{prop}: replay {path}: {d.get('kind')}: {json.dumps(d)[:600]}")
+        print(f"{prop}: replay {path}: {d.get('kind')}: {json.dumps(d)[:800]}")
         return 1
     c = Case.from_json(d["case"])
+    if c.apis == "sweep":
+        print(f"{prop}: replay of a membership sweep: pattern {c.pattern!r} flags {c.flags!r}: expected {d.get('expected')} got {d.get('got')}")
+        return 1
     code, model, dis = run_slice([c])
     print("case :", {k: show(v) for k, v in d["case"].items()})
     print("code :", code.get(c.cid))
     print("model:", model.get(c.cid))
+    sp = spec_match([c]).get(c.cid)
+    print("spec :", sp)
     if "expected" in d:
-        print("expected:", d["expected"], " previously got:", d.get("got"))
-    same = not dis
-    print("model and code", "agree" if same else "DISAGREE")
-    return 0 if same and "expected" not in d else 1
+        print("expected:", d["expected"], "| recorded:", d.get("got"), "|", d.get("why"))
+    print("model and code", "agree" if not dis else "DISAGREE")
+    return 1 if ("expected" in d or dis) else 0
